@@ -87,6 +87,8 @@ def gen_lib(rng, big=False):
     hist = rng.choice(['none', 'none', 'some', 'some', 'all'])
     npos = max(1, nsite // 2)
     positions = [1000 + 37 * i for i in range(npos)]
+    if cls == 0 and rng.random() < 0.4:
+        positions.append(0)
     upool = {}
     for p in positions:
         base = rand_seq(rng, ulen)
@@ -166,6 +168,9 @@ def gen_truth_lib(rng, eject, big=False):
     trimmed = rng.random() < 0.5
     spacing = 1500 if cls == 0 else 37
     positions = rng.sample(range(2000, 2000 + spacing * 60, spacing), npos)
+    if cls == 0 and rng.random() < 0.6:
+        # first base of a contig: forward R1 at reference_start 0; reverse R1 at 25 whose R2 starts at 0
+        positions += rng.sample([0, 25], rng.randint(1, 2))
     nclass_max = npos * 2 * ncell * 6 + 10
     umis = set()
     while len(umis) < min(nclass_max, 3000):
@@ -273,7 +278,8 @@ NLA_TYPES = [{'site': 1000, 'rev': False, 'umi': 'AAA'}, {'site': 1000, 'rev': F
 CHIC_TYPES = [{'site': 1000 + o, 'rev': False, 'umi': u} for o in (0, 1, 2, 3) for u in ('AAA', 'AAT')]
 PLAIN_TYPES = [{'site': 1000, 'rev': False, 'umi': 'AAA'}, {'site': 1000, 'rev': False, 'umi': 'AAT'},
                {'site': 1000, 'rev': False, 'umi': 'AAA', 'contig': 'chr2'}, {'site': 1000, 'rev': True, 'umi': 'AAA'},
-               {'site': 1002, 'rev': False, 'umi': 'AAA'}, {'site': 1000, 'rev': False, 'umi': 'AAA', 'sample': 'CELL_1'}]
+               {'site': 1002, 'rev': False, 'umi': 'AAA'}, {'site': 1000, 'rev': False, 'umi': 'AAA', 'sample': 'CELL_1'},
+               {'site': 0, 'rev': False, 'umi': 'AAA'}]
 
 
 def exhaustive_libs(tier):
@@ -595,6 +601,14 @@ class Prop(fw.PropBase):
         for _ in range(4 if quick else 80):
             for eject in (None, 0, 3):
                 libs.append(gen_truth_lib(self.rng, eject, big=True))
+        # construction histories: one settings dict, several lazy iterators, settings changed in between
+        for _ in range(40 if quick else 600):
+            lib = gen_lib(self.rng, big=False)
+            ds = [0, 1, 2]
+            self.rng.shuffle(ds)
+            lib['sweep'] = [{'d': d, 'cap': self.rng.choice([None, None, 1, 2, 3])} for d in ds]
+            lib['retag'] = False
+            libs.append(lib)
         libs += exhaustive_libs(self.tier)
         return libs
 
@@ -613,6 +627,13 @@ class Prop(fw.PropBase):
     def correspondence(self):
         libs = self.libraries()
         res = self.run_impl_libs(libs)
+        # every iterator of a construction history becomes a library of its own (self-contained: `history` replays it)
+        for l, r in list(zip(libs, res)):
+            if l.get('sweep') and not r.get('error'):
+                for k, sw in enumerate(l['sweep']):
+                    libs.append({'cfg': dict(l['cfg'], d=sw['d'], cap=sw['cap']), 'reads': l['reads'], 'retag': False, 'bam': False,
+                                 'history': {'sweep': l['sweep'], 'index': k}, 'meta': {'history_of': len(l['sweep'])}})
+                    res.append(r['sweep'][k])
         self.libs, self.res = libs, res
         cov = self.cov
         nfr = sum(len(l['reads']) for l in libs)
@@ -620,7 +641,7 @@ class Prop(fw.PropBase):
         nontrivial = set()
         stats = {'libraries': len(libs), 'fragments': nfr, 'with_input_duplicate_flags': 0, 'with_invalid_fragments': 0,
                  'with_cap': 0, 'overflow_events': 0, 'radius_gt0': 0, 'retag_histories': 0, 'bam_round_trips': 0,
-                 'implementation_raised': 0, 'truth_libraries': 0, 'truth_with_real_ejection': 0, 'truth_soft_clipped_reverse_R1': 0, 'molecules': 0, 'molecules_ge2': 0, 'strand_or_contig_twins': 0, 'umi_tie_events': 0}
+                 'implementation_raised': 0, 'construction_history_iterators': 0, 'plain_fragments_at_position_0': 0, 'truth_libraries': 0, 'truth_with_real_ejection': 0, 'truth_soft_clipped_reverse_R1': 0, 'molecules': 0, 'molecules_ge2': 0, 'strand_or_contig_twins': 0, 'umi_tie_events': 0}
         for l, r in zip(libs, res):
             c = l['cfg']
             hist_cls[CLS[c['cls']]] = hist_cls.get(CLS[c['cls']], 0) + 1
@@ -628,6 +649,9 @@ class Prop(fw.PropBase):
             b = min(len(l['reads']) // 10 * 10, 200)
             hist_size['%d-%d' % (b, b + 9)] = hist_size.get('%d-%d' % (b, b + 9), 0) + 1
             stats['with_cap'] += c['cap'] is not None
+            stats['construction_history_iterators'] += bool(l.get('history'))
+            if c['cls'] == 0:
+                stats['plain_fragments_at_position_0'] += sum(1 for s_ in l['reads'] if s_['r1']['start'] == 0 or (s_['r2'] and s_['r2']['start'] == 0))
             stats['truth_libraries'] += bool(l.get('truth'))
             stats['truth_with_real_ejection'] += bool(l.get('truth')) and c.get('eject') is not None
             if l.get('truth'):
@@ -782,7 +806,7 @@ class Prop(fw.PropBase):
         for key, (lib, text) in sorted(best.items()):
             lib, text = self.shrink(lib, key, text)
             self.witnesses.append({'key': key, 'what': text,
-                                   'input': {'cfg': lib['cfg'], 'reads': lib['reads'], 'retag': lib.get('retag', False), 'truth': lib.get('truth', False)},
+                                   'input': {k_: lib[k_] for k_ in ('cfg', 'reads', 'retag', 'truth', 'history') if k_ in lib},
                                    'expected': 'see Props/C06.v: ' + {'tags': 'C06_one_primary', 'sound': 'C06_sound', 'exact': 'C06_exact',
                                                                        'partition': 'C06_partition', 'retag': 'C06_retag_idempotent',
                                                                        'error': 'C06_run_total', 'truth': 'C06_exact / C06_one_primary / C06_tags with the generator\'s truth keys', 'cap': 'C06_cap', 'greedy': 'C06_greedy', 'exact_cap': 'C06_exact_cap'}.get(key.split(':')[0], 'C06')})
